@@ -53,7 +53,9 @@ Inductive strategy :=
 | FirstAvailable
 | RoundRobin
 | PreferHealthy
-| Custom (f : list status -> option nat).
+| Custom (f : list status -> option nat)
+| Random (draw : nat).     (* crate feature "random": usable[rng.random_range(0..usable.len())]; the
+                              RNG draw is a parameter (any value), it does not move the cursor *)
 
 Fixpoint position {A} (p : A -> bool) (l : list A) : option nat :=
   match l with
@@ -84,6 +86,12 @@ Definition select (s : strategy) (statuses : list status) (cursor : Z) : option 
          | None => position is_usable statuses
          end, cursor)
     | Custom f => (f statuses, cursor)
+    | Random d =>
+        let usable := filter (fun i => is_usable (nth i statuses Unknown)) (seq 0 (length statuses)) in
+        match usable with
+        | [] => (None, cursor)
+        | _ => (Some (nth (d mod length usable) usable O), cursor)
+        end
     end
   end.
 
@@ -317,6 +325,7 @@ Definition strategy_of (z : Z) : strategy :=
   if z =? 0 then FirstAvailable else if z =? 1 then RoundRobin else if z =? 2 then PreferHealthy
   else if z =? 3 then Custom (fun l => last_healthy l O None)
   else if z =? 4 then Custom (fun _ => Some 1%nat)
+  else if z =? 6 then Random 0   (* the script carries no draws: gen/c18.py compare accepts any eligible pick *)
   else Custom (fun _ => None).
 
 Definition observe (s : sim) : list Z :=
